@@ -166,6 +166,12 @@ def fit(av, ty):
 def f_arith(op, a, b):
     if a[0] != "f" or b[0] != "f":
         return FTOP
+    if op == "Rem" and not b[3] and not math.isinf(b[1]) and not math.isinf(b[2]) and (b[1] > 0.0 or b[2] < 0.0):
+        # x % m has the sign of x and magnitude below |m|; NaN when x is infinite or NaN
+        m = max(abs(b[1]), abs(b[2]))
+        lo = -m if a[1] < 0.0 else 0.0
+        hi = m if a[2] > 0.0 else 0.0
+        return ("f", lo, hi, a[3] or math.isinf(a[1]) or math.isinf(a[2]))
     nan = a[3] or b[3]
     if any(math.isinf(x) for x in (a[1], a[2], b[1], b[2])):
         return ("f", -math.inf, math.inf, True)
@@ -1358,6 +1364,11 @@ class FnCtx:
             return hit[1]
         self.memo[key] = (t, TOP)  # cycle guard
         r = self._av(t, at, edge)
+        if r[0] == "t":
+            # nothing known about the value: at least its machine type bounds it
+            rng_ = int_range(self.ft.tyof(t) or "")
+            if rng_ is not None:
+                r = I(*rng_)
         if r[0] == "i":
             r = self.refine_int(t, r, at, edge)
         elif at is not None and r[0] in ("s", "r") and (self.facts_at(at, edge) or self.ne_facts_at(at, edge)):
@@ -2062,6 +2073,14 @@ class FnCtx:
             bav = bav[1]
         if bav[0] == "b":
             return BOT, []       # the collection has no value yet in this fixpoint round: neither has its item
+        if bav[0] == "s" and sget(bav, "start") is not None and sget(bav, "end") is not None:
+            # a Range value that is not a literal here (chosen by an if / match): items lie in start..end
+            lo_, hi_ = sget(bav, "start"), sget(bav, "end")
+            if lo_[0] == "i" and hi_[0] == "i":
+                v_ = I(lo_[1], hi_[2] - 1)
+                if "enumerate" in ad:
+                    return S({"0": I(0, MAXLEN), "1": v_}), []
+                return v_, []
         elem = bav[2] if bav[0] == "v" else TOP
         byref = "byref" in ad or (item_ty or "").startswith("&") or (item_ty or "").startswith("(usize, &")
         if "copied" in ad or "cloned" in ad:
